@@ -20,6 +20,7 @@ import (
 	"sync/atomic"
 	"time"
 
+	"github.com/keybase/go-codec/codec"
 	"golang.org/x/net/context"
 )
 
@@ -431,6 +432,7 @@ type vEngine struct {
 	handlers []*vHandlerState
 	timeouts int
 	tagKeys  map[interface{}]string
+	tornDown int32
 	baseG    int // goroutines of the library alive before this engine existed (leaked by earlier cases)
 	baseDump map[string]int
 }
@@ -822,6 +824,75 @@ func (e *vEngine) op(f []string) {
 				e.ev.add("dump/%s", strings.ReplaceAll(strings.ReplaceAll(strings.ReplaceAll(d, "/", "|"), ";", ","), " ", "_"))
 			}
 		}
+	case "replyto": // replyto/<nonce>: the peer answers our call c<nonce> (its seqno is taken from the write log)
+		want := f[1]
+		var seq int64 = -1
+		e.waitFor("call-frame-on-wire/"+want, func() bool {
+			e.conn.mu.Lock()
+			ws := append([][]byte(nil), e.conn.writes...)
+			e.conn.mu.Unlock()
+			for _, w := range ws {
+				if q, nn, ok := vCallFrameSeq(w); ok && nn == want {
+					seq = q
+					return true
+				}
+			}
+			return false
+		})
+		if seq >= 0 {
+			res := "-"
+			if len(f) > 2 {
+				res = f[2]
+			}
+			e.feedResponse(seq, want, res)
+		}
+	case "holdclose":
+		e.conn.mu.Lock()
+		e.conn.closeHold = make(chan struct{})
+		e.conn.mu.Unlock()
+	case "releaseclose":
+		e.conn.mu.Lock()
+		h := e.conn.closeHold
+		e.conn.closeHold = nil
+		e.conn.mu.Unlock()
+		if h != nil {
+			close(h)
+		}
+	case "observe": // observe/<tag>: the three lifecycle accessors, no settling
+		e.ev.add("observe/%s/%s", f[1], e.observe())
+	case "watch": // watch/on: three goroutines poll the accessors until teardown
+		for i := 0; i < 3; i++ {
+			go func() {
+				var first error
+				for !e.torn() {
+					select {
+					case <-e.srv.Done():
+						err := e.srv.Err()
+						if err == nil || e.xp.IsConnected() {
+							e.ev.add("watch-violation/done-closed-but-err=%s-connected=%v", vErrClass(err), e.xp.IsConnected())
+							return
+						}
+						if first == nil {
+							first = err
+						} else if vErrClass(first) != vErrClass(err) {
+							e.ev.add("watch-violation/err-changed-%s-%s", vErrClass(first), vErrClass(err))
+							return
+						}
+					default:
+						if e.srv.Err() != nil {
+							// may legitimately race with the close; re-check
+							select {
+							case <-e.srv.Done():
+							default:
+								e.ev.add("watch-violation/err-before-done")
+								return
+							}
+						}
+					}
+					runtime.Gosched()
+				}
+			}()
+		}
 	case "setseq": // white-box: next seqno
 		n, _ := strconv.ParseInt(f[1], 10, 64)
 		e.tr.calls.seqMtx.Lock()
@@ -831,6 +902,23 @@ func (e *vEngine) op(f []string) {
 		n, _ := strconv.Atoi(f[1])
 		time.Sleep(time.Duration(n) * time.Millisecond)
 	}
+}
+
+func (e *vEngine) torn() bool { return atomic.LoadInt32(&e.tornDown) != 0 }
+
+func (e *vEngine) observe() string {
+	done := "0"
+	select {
+	case <-e.srv.Done():
+		done = "1"
+	default:
+	}
+	err := vErrClass(e.srv.Err())
+	conn := "0"
+	if e.xp.IsConnected() {
+		conn = "1"
+	}
+	return fmt.Sprintf("done=%s,connected=%s,err=%s", done, conn, err)
 }
 
 func (e *vEngine) sample() string {
@@ -939,6 +1027,7 @@ func (e *vEngine) runScript(script string) {
 
 // teardown: release everything so that nothing leaks into the next case
 func (e *vEngine) teardown() {
+	atomic.StoreInt32(&e.tornDown, 1)
 	e.hooks.mu.Lock()
 	for k, p := range e.hooks.parks {
 		close(p.gate)
@@ -974,4 +1063,61 @@ func vRunScenario(c vCase) []string {
 	evs := e.ev.snapshot()
 	e.teardown()
 	return evs
+}
+
+// vCallFrameSeq: seqno and nonce (decimal text) of a call frame written by the library
+func vCallFrameSeq(w []byte) (int64, string, bool) {
+	h := &codec.MsgpackHandle{WriteExt: true, RawToString: true}
+	dec := codec.NewDecoderBytes(w, h)
+	var l int
+	if dec.Decode(&l) != nil {
+		return 0, "", false
+	}
+	var arr []interface{}
+	if dec.Decode(&arr) != nil || len(arr) < 4 {
+		return 0, "", false
+	}
+	toI := func(v interface{}) (int64, bool) {
+		switch x := v.(type) {
+		case int64:
+			return x, true
+		case uint64:
+			return int64(x), true
+		}
+		return 0, false
+	}
+	t, ok := toI(arr[0])
+	if !ok || (t != 0 && t != 4) {
+		return 0, "", false
+	}
+	q, _ := toI(arr[1])
+	arg := arr[3]
+	if t == 4 && len(arr) >= 5 {
+		arg = arr[4]
+	}
+	if a, ok := arg.([]interface{}); ok && len(a) > 0 {
+		if n, ok := toI(a[0]); ok {
+			return q, strconv.FormatInt(n, 10), true
+		}
+	}
+	return q, "", true
+}
+
+// feedResponse: [1, seq, nil, a[i:nonce, b:]] (or the given result text) from the peer
+func (e *vEngine) feedResponse(seq int64, nonce string, res string) {
+	var v interface{}
+	if res == "-" {
+		n, _ := strconv.ParseInt(nonce, 10, 64)
+		v = []interface{}{n, []byte{}}
+	} else {
+		v = vParse(res)
+	}
+	h := &codec.MsgpackHandle{WriteExt: true, RawToString: true}
+	var content, prefix []byte
+	_ = codec.NewEncoderBytes(&content, h).Encode([]interface{}{1, seq, nil, v})
+	_ = codec.NewEncoderBytes(&prefix, h).Encode(len(content))
+	b := append(prefix, content...)
+	e.ev.add("feed/%s", vHex(b))
+	e.conn.feed(b, nil)
+	e.srv.Run()
 }
